@@ -104,7 +104,13 @@ def run(run):
                 body = st[2]
                 rets = [x for x in S.subterms(body) if isinstance(x, tuple) and x and x[0] == "return"]
                 iters = [x for x in S.subterms(body) if is_call(x, ("iter", "into_iter")) and any(isinstance(y, tuple) and y and y[0] == "var" and y[1] == "modules" for y in S.subterms(x))]
-                run.check("R1", "module-versions|lists-registry-and-returns", bool(rets) and bool(iters), "the --module-versions branch must iterate the module list and return", C.loc(m["body"]))
+                # or the listing lives in a helper that is handed the module list and iterates it
+                handed = [x for x in S.subterms(body) if is_call(x) and x[3] in C.by_path and any(isinstance(y, tuple) and y and y[0] == "var" and y[1] == "modules" for a in x[2] for y in S.subterms(a))]
+                helper_iterates = any(T.for_loops(C.by_path[x[3]]["body"]) or any(T.is_call(y, ("for_each", "iter", "into_iter")) for y in T.walk_fn(C, C.by_path[x[3]])) for x in handed)
+                if rets and not iters and handed and not helper_iterates:
+                    run.undecided("R1", "module-versions|lists-registry-and-returns", "the listing is delegated to a helper whose iteration is not recognised", C.loc(m["body"]))
+                else:
+                    run.check("R1", "module-versions|lists-registry-and-returns", bool(rets) and (bool(iters) or helper_iterates), "the --module-versions branch must iterate the module list and return", C.loc(m["body"]))
             if idx_mut is None and mutates_modules(st):
                 idx_mut = i
         if idx_versions is None:
